@@ -55,6 +55,7 @@ def write_family(root, fid, fam):
     cal = ['#include "/sc.h"', "void create() { seteuid(getuid()); }"]
     for n in ("f", "g"):
         cal.append('void co_%s(object t) { mixed e; vlog("\\"e\\":\\"Call\\",\\"origin\\":\\"call_other\\",\\"name\\":\\"%s\\""); e = catch(t->%s(1)); vlog("\\"e\\":\\"CallDone\\""); }' % (n, n, n))
+        cal.append('void coa_%s(object t) { mixed e; vlog("\\"e\\":\\"Call\\",\\"origin\\":\\"call_other\\",\\"name\\":\\"%s\\""); e = catch(({ this_object(), t })->%s(1)); vlog("\\"e\\":\\"CallDone\\""); }' % (n, n, n))
         cal.append('void efun_%s(object t) { mixed e; vlog("\\"e\\":\\"Call\\",\\"origin\\":\\"efun\\",\\"name\\":\\"%s\\""); e = catch(map_array(({ 1 }), "%s", t)); vlog("\\"e\\":\\"CallDone\\""); }' % (n, n, n))
     open(os.path.join(d, "caller.c"), "w").write("\n".join(cal) + "\n")
 
@@ -66,6 +67,8 @@ def script_of(fid, h):
         o, n = c.split("_")
         if o == "co":
             ops += ["line u1 do me xcall:cal:co_%s:t" % n, "cycle"]
+        elif o == "coa":      # call_other on an ARRAY of objects, the object under test not being the first element
+            ops += ["line u1 do me xcall:cal:coa_%s:t" % n, "cycle"]
         elif o == "efun":
             ops += ["line u1 do me xcall:cal:efun_%s:t" % n, "cycle"]
         elif o == "drv":
